@@ -117,6 +117,11 @@ def value_shapes(t):
     yield ['a', [['n']]], True
     yield ['a', [sc[0], ['n'], sc[-1]]], True
     yield ['a', [['n'], sc[0]]], True
+    # several NULL entries (each must keep its place), repeated equal entries
+    yield ['a', [['n'], ['n']]], True
+    yield ['a', [['n'], sc[0], ['n']]], True
+    yield ['a', [sc[0], ['n'], ['n'], sc[-1], ['n']]], True
+    yield ['a', [sc[0], sc[0], sc[0]]], True
     yield ['a', list(sc)], True
 
 
@@ -197,7 +202,8 @@ def embedded_specs(maxdepth, strlen):
         items = [e1] + ([cls] if eo == 'object' else [])
         shapes = [['n'], ['a', []], ['a', [['n']]]]
         for it in items:
-            shapes += [['a', [it]], ['a', [it, ['n']]], ['a', [['n'], it]], ['a', [it, it]]]
+            shapes += [['a', [it]], ['a', [it, ['n']]], ['a', [['n'], it]], ['a', [it, it]],
+                       ['a', [['n'], it, ['n']]], ['a', [['n'], ['n']]]]
         for v in shapes:
             kw = {'type': 'string', 'embedded_object': eo, 'is_array': True}
             yield ['prop', 'E', v, kw]
